@@ -93,6 +93,69 @@ Proof.
     symmetry. etransitivity; [|apply m_get_app]. f_equal. apply app_assoc.
 Qed.
 
+(* ---- sorted insertion keeps the keys pairwise distinct ---- *)
+Lemma mem_str_false_neq k : forall l, mem_str k l = false -> forall x, In x l -> str_eqb x k = false.
+Proof.
+  induction l as [|y l IH]; intros H x Hin; [destruct Hin|].
+  cbn [mem_str] in H. apply orb_false_iff in H. destruct H as [H1 H2].
+  destruct Hin as [->|Hin]; auto.
+Qed.
+
+Lemma sj_insert_mem {A} k (v : A) f : forall l,
+  mem_str f (map fst (sj_insert k v l)) = str_eqb k f || mem_str f (map fst l).
+Proof.
+  induction l as [|e l IH]; [reflexivity|].
+  cbn [sj_insert]. destruct (str_eqb (fst e) k) eqn:Ek.
+  - apply str_eqb_spec in Ek. cbn [map fst mem_str]. rewrite Ek.
+    destruct (str_eqb k f); reflexivity.
+  - destruct (str_ltb k (fst e)); [reflexivity|].
+    cbn [map fst mem_str]. rewrite IH.
+    destruct (str_eqb (fst e) f), (str_eqb k f); reflexivity.
+Qed.
+
+Lemma sj_insert_nodup {A} k (v : A) : forall l,
+  nodup_str (map fst l) = true -> mem_str k (map fst l) = false ->
+  nodup_str (map fst (sj_insert k v l)) = true.
+Proof.
+  induction l as [|e l IH]; intros Hn Hm; [reflexivity|].
+  cbn [map mem_str] in Hm. apply orb_false_iff in Hm. destruct Hm as [Hm1 Hm2].
+  cbn [map nodup_str] in Hn. apply andb_true_iff in Hn. destruct Hn as [Hn1 Hn2].
+  cbn [sj_insert]. rewrite Hm1.
+  destruct (str_ltb k (fst e)).
+  - cbn [map fst nodup_str mem_str]. rewrite Hm1, Hm2, Hn1, Hn2. reflexivity.
+  - cbn [map fst nodup_str]. rewrite (IH Hn2 Hm2), andb_true_r.
+    rewrite sj_insert_mem. apply negb_true_iff in Hn1. rewrite Hn1.
+    rewrite mem_str_eqb_sym, Hm1. reflexivity.
+Qed.
+
+Lemma fold_insert_nodup {A} : forall (l acc : list (str * A)),
+  nodup_str (map fst acc ++ map fst l) = true ->
+  nodup_str (map fst (fold_left (fun a e => sj_insert (fst e) (snd e) a) l acc)) = true.
+Proof.
+  induction l as [|[k v] l IH] using rev_ind; intros acc H.
+  - cbn in *. rewrite app_nil_r in H. exact H.
+  - rewrite fold_left_app. cbn [fold_left fst snd].
+    rewrite map_app in H. cbn [map fst] in H. rewrite app_assoc in H.
+    destruct (nodup_str_app_cons _ _ _ H) as (H1 & _ & _).
+    pose proof (nodup_str_prefix _ _ H) as Hp.
+    apply sj_insert_nodup; [exact (IH acc Hp)|].
+    (* k is fresh in the folded list: its keys are keys of acc or of l *)
+    destruct (mem_str k (map fst (fold_left (fun a e => sj_insert (fst e) (snd e) a) l acc))) eqn:Em; [|reflexivity].
+    exfalso. clear - Em H1.
+    assert (G : forall (l acc : list (str * A)) f,
+              mem_str f (map fst (fold_left (fun a e => sj_insert (fst e) (snd e) a) l acc))
+              = mem_str f (map fst acc) || mem_str f (map fst l)).
+    { clear. induction l as [|[k0 v0] l IHl]; intros acc f; cbn [fold_left map fst snd mem_str].
+      - rewrite orb_false_r. reflexivity.
+      - rewrite IHl, sj_insert_mem.
+        destruct (str_eqb k0 f), (mem_str f (map fst acc)), (mem_str f (map fst l)); reflexivity. }
+    rewrite G in Em. rewrite mem_str_app in H1. rewrite H1 in Em. discriminate.
+Qed.
+
+Lemma isort_nodup {A} (l : list (str * A)) :
+  nodup_str (map fst l) = true -> nodup_str (map fst (isort l)) = true.
+Proof. intros H. unfold isort. apply fold_insert_nodup. exact H. Qed.
+
 Section ViaJson.
   Variable E : env.
   Variable fmt_sj : Z -> list N.
@@ -226,7 +289,8 @@ Section ViaJson.
   Lemma ER_facts rec kt t' l ks ws : ER rec kt t' l ks ws ->
     map (kmap (entryF rec kt t')) (combine ks ws)
       = map keyed (map (fun kv => (fst kv, sort_maps (snd kv))) l) /\
-    Forall (fun e : entry => exists k x, de_key E kt (fst e) = Ok k /\ rec t' (snd e) = Ok x) (combine ks ws).
+    Forall (fun e : entry => exists k x, de_key E kt (fst e) = Ok k /\ rec t' (snd e) = Ok x /\
+                                          key_str k = Some (fst e)) (combine ks ws).
   Proof.
     induction 1 as [|k x s w l ks ws Hs Hk Hw _ [IH1 IH2]]; [split; [reflexivity|constructor]|].
     split.
@@ -235,11 +299,30 @@ Section ViaJson.
     - cbn [combine]. constructor; auto. exists k, (sort_maps x). cbn [fst snd]. auto.
   Qed.
 
+  Lemma nodup_combine : forall (names : list str) (ws : list value),
+    nodup_str names = true -> nodup_str (map fst (combine names ws)) = true.
+  Proof.
+    induction names as [|a names IHn]; intros [|w ws] Hd; cbn in *; auto.
+    apply andb_true_iff in Hd. destruct Hd as [D1 D2]. apply andb_true_iff. split; auto.
+    apply negb_true_iff. apply negb_true_iff in D1. apply mem_combine. exact D1.
+  Qed.
+
+  Lemma keys_of_entryF rec kt t' : forall es : list entry,
+    Forall (fun e : entry => exists k x, de_key E kt (fst e) = Ok k /\ rec t' (snd e) = Ok x /\
+                                          key_str k = Some (fst e)) es ->
+    keys_of (map (fun e => entryF rec kt t' (fst e) (snd e)) es) = map fst es.
+  Proof.
+    induction 1 as [|[k0 w] es (k & x & Hk & Hx & Hs) _ IH]; [reflexivity|].
+    cbn [fst snd] in Hk, Hx, Hs. cbn [map keys_of fst snd]. unfold entryF at 1. rewrite Hk. cbn [unwrap fst].
+    rewrite Hs, IH. reflexivity.
+  Qed.
+
   Lemma de_entries_F rec kt t' : forall es : list entry,
-    Forall (fun e : entry => exists k x, de_key E kt (fst e) = Ok k /\ rec t' (snd e) = Ok x) es ->
+    Forall (fun e : entry => exists k x, de_key E kt (fst e) = Ok k /\ rec t' (snd e) = Ok x /\
+                                          key_str k = Some (fst e)) es ->
     de_entries E rec kt t' es = Ok (map (fun e => entryF rec kt t' (fst e) (snd e)) es).
   Proof.
-    induction 1 as [|[k0 w] es (k & x & Hk & Hx) _ IH]; [reflexivity|].
+    induction 1 as [|[k0 w] es (k & x & Hk & Hx & _) _ IH]; [reflexivity|].
     cbn [fst snd] in Hk, Hx. cbn [de_entries map fst snd]. rewrite Hk. cbn [obind]. rewrite Hx. cbn [obind]. rewrite IH.
     unfold entryF. rewrite Hk, Hx. reflexivity.
   Qed.
@@ -336,13 +419,19 @@ Section ViaJson.
         rewrite X. reflexivity.
       + fuel1 m. rewrite from_sj_obj.
         destruct (ER_facts _ _ _ _ _ _ (Hn fuel ltac:(lia))) as [F1 F2].
-        rewrite de_entries_F.
-        * cbn [obind sort_maps]. f_equal. f_equal. unfold sort_map_entries.
-          rewrite <- F1.
-          pose proof (fold_insert_map (entryF (de fuel) k t) (combine (keys_of l) (map fsj js)) []) as Q.
-          cbn [map] in Q. unfold isort. rewrite <- Q. rewrite map_map. apply map_ext. intros e. reflexivity.
-        * apply Forall_forall. intros e He. apply isort_in in He.
-          rewrite Forall_forall in F2. exact (F2 e He).
+        assert (F3 : Forall (fun e : entry => exists k0 x, de_key E k (fst e) = Ok k0 /\ de fuel t (snd e) = Ok x /\
+                                                   key_str k0 = Some (fst e))
+                            (isort (combine (keys_of l) (map fsj js)))).
+        { apply Forall_forall. intros e He. apply isort_in in He.
+          rewrite Forall_forall in F2. exact (F2 e He). }
+        rewrite de_entries_F by exact F3.
+        cbn [obind sort_maps]. f_equal. f_equal.
+        rewrite last_wins_nodup
+          by (rewrite (keys_of_entryF _ _ _ _ F3); apply isort_nodup; apply nodup_combine; exact Ht0).
+        unfold sort_map_entries.
+        rewrite <- F1.
+        pose proof (fold_insert_map (entryF (de fuel) k t) (combine (keys_of l) (map fsj js)) []) as Q.
+        cbn [map] in Q. unfold isort. rewrite <- Q. rewrite map_map. apply map_ext. intros e. reflexivity.
     - (* struct *) split_and Ht. apply str_eqb_spec in Ht. subst name.
       destruct (assoc n E) as [[]|] eqn:Ea; try discriminate. split_and Ht0.
       destruct (fields_via l H l0 Ht0 Hf) as (js & Hjs & m & Hn).
